@@ -145,7 +145,10 @@ func c01Events(r *c01Req, ops []vOp, calls []vIssueCall, foreignWrites []int64) 
 				failed = true
 				continue
 			}
-			// the save: up to three stores
+			// the save: storeTx first loads what it is about to replace, then up to three stores
+			for n := 0; i < len(ops) && ops[i].Kind == "Load" && n < 3; n++ {
+				i++
+			}
 			k := 0
 			var last int64
 			bad := false
@@ -164,7 +167,7 @@ func c01Events(r *c01Req, ops []vOp, calls []vIssueCall, foreignWrites []int64) 
 			} else {
 				emit(float64(last), "saveFail:%d:%d", r.id, k)
 				failed = true
-				for i < len(ops) && ops[i].Kind == "Delete" { // roll-back
+				for i < len(ops) && (ops[i].Kind == "Delete" || ops[i].Kind == "Store") { // roll-back
 					i++
 				}
 			}
@@ -221,9 +224,7 @@ func c01Scenario(t *testing.T, o *vOut, seed int64, maxN, scIdx int) {
 	initial := []string{"none", "none", "due", "fresh"}[rng.Intn(4)]
 	failFirst := []int{0, 0, 1, 2}[rng.Intn(4)]
 	storeFaultAt := 0 // fail the k-th Store call of the scenario (after preparation)
-	if rng.Intn(5) == 0 && initial == "none" {
-		// (a failed save of a RENEWAL destroys the previous bundle — storeTx's roll-back — and
-		// is C07's subject; here only first issuances are disturbed)
+	if rng.Intn(5) == 0 {
 		storeFaultAt = 1 + rng.Intn(4)
 	}
 	synctest.Test(t, func(t *testing.T) {
